@@ -230,3 +230,43 @@ impl ConfigReloader {
         Ok(rate)
     }
 }
+
+/// Verification hook: constructs the private `ConfigReloader` for a path and
+/// handle (remembering the file's current text and mtime, as `init_file`
+/// does) and single-steps it.
+#[cfg(log4rs_verif)]
+pub struct VerifReloader(ConfigReloader);
+
+#[cfg(log4rs_verif)]
+impl VerifReloader {
+    pub fn new<P: AsRef<Path>>(
+        path: P,
+        deserializers: Deserializers,
+        handle: Handle,
+    ) -> anyhow::Result<(VerifReloader, Config, Option<Duration>)> {
+        let path = path.as_ref().to_path_buf();
+        let format = Format::from_path(&path)?;
+        let source = read_config(&path)?;
+        let modified = fs::metadata(&path).and_then(|m| m.modified()).ok();
+        let config = format.parse(&source)?;
+        let refresh_rate = config.refresh_rate();
+        let config = deserialize(&config, &deserializers);
+        Ok((
+            VerifReloader(ConfigReloader {
+                path,
+                format,
+                source,
+                modified,
+                deserializers,
+                handle,
+            }),
+            config,
+            refresh_rate,
+        ))
+    }
+
+    /// One poll of the reloader loop body (without the sleep).
+    pub fn step(&mut self, rate: Duration) -> anyhow::Result<Option<Duration>> {
+        self.0.run_once(rate)
+    }
+}
